@@ -190,8 +190,12 @@ def make_nbest(which, grammar_based=True, adversarial=False, k=1, rich=True):
             t2 = rebuild_over(toks, t, which)
             trees.append(t2)
         return [ScoredTree(x, -rng.random() * 5) for x in trees]
-    cats = [Category.parse(c) for c in (['NP', 'N', 'S[dcl]\\NP', '(S[dcl]\\NP)/NP', 'S[dcl]', 'NP[nb]/N', 'conj', '(S\\NP)\\(S\\NP)'] if which == 'en' else
+    cats = [Category.parse(c) for c in (['NP', 'N', 'S[dcl]\\NP', '(S[dcl]\\NP)/NP', 'S[dcl]', 'NP[nb]/N', 'conj', '(S\\NP)\\(S\\NP)', 'N[num]'] if which == 'en' else
                                       ['NP[case=nc,mod=nm,fin=f]', 'S[mod=nm,form=base,fin=f]\\NP[case=ga,mod=nm,fin=f]', 'S[mod=nm,form=base,fin=t]', 'NP[case=ga,mod=nm,fin=f]'])]
+    if which == 'en':
+        # categories built with the constructors (not through Category.parse): a feature on the right-most atom, the CCGbank conjunction mark among them
+        A, F, U = T.Atom, T.Functor, T.UnaryFeature
+        cats += [A('NP', U('conj')), F(A('S', U('dcl')), '\\', A('NP', U('conj'))), F(A('NP'), '/', A('N', U('num')))]
     labels = reachable_labels(which)
     words = T.ADVERSARIAL if adversarial else (list(T.EN_LEX) if which == 'en' else list(T.JA_LEX))
     n = rng.randint(1, 5)
@@ -660,8 +664,10 @@ def check_xml(which, nbest_batch, grammar_based, ctx):
                         return ('N', T.jigg_xml._cat_multi_valued(n.cat), n.op_symbol if which == 'ja' else n.op_string, tuple(vjx(c) for c in n.children))
                     if got != vjx(t) or (b, e_) != (0, len(t.tokens)):
                         fail('C15', 'jigg_xml spans do not decode to the derivation / offsets do not tile the sentence', **ctx)
+                        fail('C07', 'jigg_xml spans do not decode to the derivation (shape, categories, rule labels, span offsets)', **ctx)
                 except Exception as e:   # noqa
                     fail('C15', 'jigg_xml sentence is not self-contained', error=f'{type(e).__name__}: {e}'[:200], **ctx)
+                    fail('C07', 'jigg_xml spans do not decode to the derivation (shape, categories, rule labels, span offsets)', error=f'{type(e).__name__}: {e}'[:200], **ctx)
                 # ccg2lambda's tree builder
                 try:
                     if TOOLS is None:
